@@ -8,7 +8,16 @@ from vf import build, run, zoo, corrupt, fsckpair
 
 rd = sys.argv[1]
 out = sys.argv[2] if len(sys.argv) > 2 else "/dev/shm/c02case.img"
-case = json.load(open(os.path.join(rd, "case.json")))["case"]
+if ":" in rd and not os.path.exists(rd):
+    # "<universe tag>:<size>:<cid>", e.g. C01-v1:60000:29990
+    tag, size, cid = rd.split(":")
+    os.makedirs("/dev/shm/c02case.d", exist_ok=True)
+    names = zoo.corpus_names("thorough")
+    u = corrupt.Universe(tag, {n: zoo.corpus_image(n, "/dev/shm/c02case.d") for n in names}, int(size))
+    c = u.case(int(cid))
+    case = {"image": c.image, "descr": c.descr, "patches": [[o, b.hex()] for o, b in c.patches]}
+else:
+    case = json.load(open(os.path.join(rd, "case.json")))["case"]
 b = build.get_build("plain")
 env = run.base_env(b)
 os.makedirs("/dev/shm/c02case.d", exist_ok=True)
